@@ -6,8 +6,6 @@ import DimModel.Proofs.Order
 namespace DimModel
 open Lib
 
-theorem label_lt_eq : (Label.lt) = (fun a b => !(Label.le b a)) := by
-  funext a b; rfl
 
 /-- `locate_one` without tolerance: the first position of the label, `IndexError` if absent -/
 theorem locateOne_none (L : List Label) (v : Label) :
